@@ -316,7 +316,8 @@ def c08(tier, seed):
     scns += clone_default_scripts([0, 1, 2, 3, 5] + big, "C08", False)
     c.cov["exhaustive"] = True
     c.cov["bounds"] = {"model N": "0..%d" % (4 if tier == "quick" else 6), "real-code N": sorted(set(d["n"] for d in descs)), "forms": "generate arr/box; map, fold: own/&/&mut/Box; zip: 9 stack forms + Box x Box; Clone, Default arr/box"}
-    c.conform(binary, scns, "order")
+    c.conform(binary, with_etys(scns, ["tk", "zst", "plain"]), "order")
+    c.assumptions += ["element kinds: drop-tracked (needs_drop branch of the specialised zip bodies), drop-tracked zero-sized, and plain without drop glue (the ManuallyDrop branches)"]
     return c.finish()
 
 
@@ -338,7 +339,7 @@ def c04(tier, seed):
     scns += collect_scripts([0, 1, 2, 3] if tier == "quick" else [0, 1, 2, 3, 4, 8], "C04", True, extra_hints=False)
     c.cov["exhaustive"] = True
     c.cov["bounds"] = {"model N": "0..%d" % (4 if tier == "quick" else 6), "crash points": "every callback index of every closure / Clone::clone / Iterator::next call"}
-    c.conform(binary, scns, "panics", nontrivial=lambda s: True)
+    c.conform(binary, with_etys(scns, ["tk", "zst", "plain"]), "panics", nontrivial=lambda s: True)
     if tier != "quick":
         c.neg("MC_Build", "NEG_Build_consumer")
         c.neg("MC_Build", "NEG_Build_builder")
@@ -351,5 +352,230 @@ def c07(tier, seed):
     binary = vlib.build_harness()
     scns = collect_scripts([0, 1, 2, 3] if tier == "quick" else [0, 1, 2, 3, 4, 5, 8, 16], "C07", True)
     c.cov["exhaustive"] = True
-    c.conform(binary, scns, "collect")
+    c.conform(binary, with_etys(scns, ["tk", "zst"] if tier == "quick" else ["tk", "zst", "plain"]), "collect")
+    return c.finish()
+
+
+# ---------------------------------------------------------------------------------------------
+# C03: exactly-once drop across histories of ownership moves
+# ---------------------------------------------------------------------------------------------
+def with_etys(scns, etys):
+    """Replicates scenarios over element kinds: drop-tracked (tk), drop-tracked zero-sized (zst,
+    identities inferred by TLC) and plain (no destructor).  Fault-injecting scenarios need
+    identities; pass-through callbacks need them too."""
+    out = []
+    for s in scns:
+        for e in etys:
+            if e != "tk" and (s.get("fuse_drop") or s.get("fuse_clone")):
+                continue
+            if e == "zst" and any(st.get("pass_mod", -1) >= 0 for st in s["steps"]):
+                continue
+            t = dict(s)
+            t["ety"] = e
+            t["d"] = dict(s.get("d", {}), ety=e)
+            out.append(t)
+    return out
+
+
+def random_histories(rng, count, max_len, steps_n, max_vals=3):
+    """Seeded random chains of ownership-moving operations (the harness's own driver, beyond the
+    bounds of the exhaustive model).  Tracks only lengths and kinds, never contents."""
+    out = []
+    conv = {"native": ["from_array", "from_native"], "tuple": ["from_tuple"], "box": ["unbox", "into_boxed_slice", "into_vec", "box_into_iter", "map", "fold", "clone"],
+            "bslice": ["bslice_into_vec", "try_from_boxed_slice", "arr_try_from_bslice"], "vec": ["vec_into_bslice", "try_from_vec", "arr_try_from_vec"], "viter": []}
+    for _ in range(count):
+        steps = []
+        vals = {}  # h -> (kind, n, inner)
+        nexth = 1
+        loose = 0
+        for _ in range(steps_n):
+            if not vals or (len(vals) < max_vals and rng.random() < 0.25):
+                kind = rng.choice(["arr", "arr", "arr", "native", "tuple", "vec", "bslice", "box", "nested"])
+                n = rng.randint(1 if kind == "tuple" else 0, max_len)
+                if kind == "nested":
+                    inner = rng.randint(0, 3)
+                    outer = rng.randint(0, 3)
+                    if inner * outer > max_len:
+                        continue
+                    steps.append({"op": "mk", "n": outer, "kind": "nested", "inner": inner})
+                    vals[nexth] = ("nested", inner * outer, inner)
+                else:
+                    st = {"op": "mk", "n": n, "kind": kind}
+                    if kind == "vec" and rng.random() < 0.5:
+                        st["cap"] = 2
+                    steps.append(st)
+                    vals[nexth] = (kind, n, 0)
+                nexth += 1
+                continue
+            if loose < 2 and rng.random() < 0.1:
+                steps.append({"op": "mk_elem"})
+                loose += 1
+                continue
+            h = rng.choice(list(vals))
+            kind, n, inner = vals[h]
+
+            def out1(k, m, inn=0):
+                nonlocal nexth
+                vals[nexth] = (k, m, inn)
+                nexth += 1
+
+            if kind == "arr":
+                ops = ["into_iter", "box_new", "vec_from_arr", "bslice_from_arr", "map", "fold", "clone", "split"]
+                if n <= 16:
+                    ops += ["into_array", "into_native"]
+                if 1 <= n <= 12:
+                    ops += ["into_tuple"]
+                if n >= 1:
+                    ops += ["pop_back", "pop_front", "remove", "swap_remove"]
+                if loose and n < max_len:
+                    ops += ["append", "prepend"]
+                others = [g for g in vals if g != h and vals[g][0] == "arr"]
+                if any(vals[g][1] + n <= max_len for g in others):
+                    ops.append("concat")
+                if any(vals[g][1] == n for g in others):
+                    ops.append("zip")
+                ops.append("unflatten")
+                o = rng.choice(ops)
+                if o in ("append", "prepend"):
+                    steps.append({"op": o, "recv": [h], "pick": 0})
+                    del vals[h]
+                    loose -= 1
+                    out1("arr", n + 1)
+                elif o in ("pop_back", "pop_front"):
+                    steps.append({"op": o, "recv": [h]})
+                    del vals[h]
+                    out1("arr", n - 1)
+                    loose += 1
+                elif o in ("remove", "swap_remove"):
+                    i = rng.randint(0, n - 1)
+                    steps.append({"op": o, "recv": [h], "arg": i})
+                    del vals[h]
+                    out1("arr", n - 1)
+                    loose += 1
+                elif o == "split":
+                    k = rng.randint(0, n)
+                    steps.append({"op": o, "recv": [h], "arg": k})
+                    del vals[h]
+                    out1("arr", k)
+                    out1("arr", n - k)
+                elif o == "concat":
+                    g = rng.choice([g for g in others if vals[g][1] + n <= max_len])
+                    steps.append({"op": o, "recv": [h, g]})
+                    m = vals[g][1]
+                    del vals[h], vals[g]
+                    out1("arr", n + m)
+                elif o == "zip":
+                    g = rng.choice([g for g in others if vals[g][1] == n])
+                    fa, fb = rng.choice(["own", "ref", "mut"]), rng.choice(["own", "ref", "mut"])
+                    steps.append({"op": o, "recv": [h, g], "form": [fa, fb]})
+                    if fa == "own":
+                        del vals[h]
+                    if fb == "own":
+                        del vals[g]
+                    out1("arr", n)
+                elif o == "unflatten":
+                    cands = [i for i in range(1, 7) if n % i == 0 and n // i <= 6]
+                    if not cands:
+                        continue
+                    i = rng.choice(cands)
+                    steps.append({"op": o, "recv": [h], "arg": i})
+                    del vals[h]
+                    out1("nested", n, i)
+                elif o in ("map", "fold"):
+                    f = rng.choice(["own", "ref", "mut"])
+                    steps.append({"op": o, "recv": [h], "form": [f]})
+                    if f == "own":
+                        del vals[h]
+                    if o == "map":
+                        out1("arr", n)
+                elif o == "clone":
+                    steps.append({"op": o, "recv": [h], "form": ["ref"]})
+                    out1("arr", n)
+                else:
+                    steps.append({"op": o, "recv": [h]})
+                    del vals[h]
+                    out1({"into_iter": "iter", "box_new": "box", "vec_from_arr": "vec", "bslice_from_arr": "bslice", "into_array": "native", "into_native": "native", "into_tuple": "tuple"}[o], n)
+            elif kind == "iter":
+                o = rng.choice(["next", "next_back", "nth", "nth_back", "len", "iter_clone", "count", "last", "iter_fold", "iter_rfold", "release", "debug"])
+                if o in ("next", "next_back"):
+                    steps.append({"op": o, "recv": [h]})
+                    if n:
+                        vals[h] = ("iter", n - 1, 0)
+                        loose += 1
+                elif o in ("nth", "nth_back"):
+                    a = rng.randint(0, n + 1)
+                    steps.append({"op": o, "recv": [h], "arg": a})
+                    k = min(a, n)
+                    if n - k > 0:
+                        loose += 1
+                        vals[h] = ("iter", n - k - 1, 0)
+                    else:
+                        vals[h] = ("iter", 0, 0)
+                elif o in ("len", "debug"):
+                    steps.append({"op": o, "recv": [h]})
+                elif o == "iter_clone":
+                    steps.append({"op": o, "recv": [h]})
+                    out1("iter", n)
+                elif o == "release":
+                    steps.append({"op": "release", "h": h})
+                    del vals[h]
+                else:
+                    steps.append({"op": o, "recv": [h]})
+                    del vals[h]
+                    if o == "last" and n:
+                        loose += 1
+            elif kind == "nested":
+                steps.append({"op": "flatten", "recv": [h]})
+                del vals[h]
+                out1("arr", n)
+            elif kind == "viter":
+                steps.append({"op": "release", "h": h})
+                del vals[h]
+            else:
+                o = rng.choice(conv[kind])
+                if o in ("try_from_vec", "arr_try_from_vec", "try_from_boxed_slice", "arr_try_from_bslice"):
+                    tgt = n if rng.random() < 0.7 else (n + 1 if n + 1 <= max_len else max(n - 1, 0))
+                    steps.append({"op": o, "recv": [h], "arg": tgt})
+                    del vals[h]
+                    if tgt == n:
+                        out1("box" if o.startswith("try_") else "arr", n)
+                elif o in ("map", "fold", "clone"):
+                    if o == "clone":
+                        steps.append({"op": o, "recv": [h], "form": ["ref"]})
+                        out1("box", n)
+                    else:
+                        steps.append({"op": o, "recv": [h], "form": ["own"]})
+                        del vals[h]
+                        if o == "map":
+                            out1("box", n)
+                else:
+                    steps.append({"op": o, "recv": [h]})
+                    del vals[h]
+                    out1({"from_array": "arr", "from_native": "arr", "from_tuple": "arr", "unbox": "arr", "into_boxed_slice": "bslice", "into_vec": "vec", "box_into_iter": "viter",
+                          "bslice_into_vec": "vec", "vec_into_bslice": "bslice"}[o], n)
+            while loose > 3:
+                steps.append({"op": "release_elem", "pick": 0})
+                loose -= 1
+        out.append({"case": "hist-rnd", "ety": "tk", "steps": steps, "d": {"kind": "random-history", "steps": len(steps)}})
+    return out
+
+
+@check("C03")
+def c03(tier, seed):
+    c = Check("C03", tier, seed)
+    binary = vlib.build_harness()
+    r = c.mc("MC_Pool", "MC_Pool_q" if tier == "quick" else "MC_Pool_t", workers=8, timeout=1500)
+    hists = [h for h in r["scenarios"] if any("recv" in st for st in h["steps"])]
+    rng = random.Random(seed)
+    if tier == "quick" and len(hists) > 1500:
+        hists = rng.sample(hists, 1500)
+    scns = [{"case": "hist", "steps": h["steps"], "d": {"kind": "tlc-history", "steps": h["steps"]}} for h in hists]
+    c.cov["bounds"] = {"exhaustive": "histories of <= %d operations over <= 2 values of length <= %d" % ((3, 2) if tier == "quick" else (4, 3))}
+    c.conform(binary, with_etys(scns, ["tk"] if tier == "quick" else ["tk", "zst", "plain"]), "tlc-histories")
+    # longer chained histories: TLC simulation of the same model, then the harness's own seeded driver
+    sim = c.mc("MC_Pool", "MC_Pool_sim", workers=1, extra=["-simulate", "num=%d" % (60 if tier == "quick" else 600), "-depth", "200", "-seed", str(seed)])
+    scns = [{"case": "sim", "steps": h["steps"], "d": {"kind": "tlc-simulation", "steps": h["steps"]}} for h in sim["scenarios"]]
+    c.conform(binary, with_etys(scns, ["tk", "zst", "plain"]), "tlc-simulation")
+    rnd = random_histories(rng, 30 if tier == "quick" else 300, 12, 40 if tier == "quick" else 120)
+    c.conform(binary, with_etys(rnd, ["tk", "zst", "plain"]), "random-histories")
     return c.finish()
